@@ -139,6 +139,12 @@ class World:
                     self.outputs.append(traffic.canon(r))
                     if r is None:
                         self.rejected += 1
+                    elif len(self.outputs) % 2:
+                        # the caller owns what it was handed: it edits and empties the returned message
+                        for fld in r.fields:
+                            fld.value, fld.raw_value, fld.unit_of_measurement = "edited by the caller", -1, "x"
+                        r.fields.clear()
+                        r.PGN, r.id, r.source, r.hash = -1, "edited", -1, "edited"
                 except Exception as e:
                     self.outputs.append(("error", type(e).__name__))
                     self.rejected += 1
